@@ -138,6 +138,8 @@ OPS = {
         op("closure-marks-swapped-ends", "fire", [(S, "        a=latom.index, a_stereo=lstereo, a_pos=lpos,\n        b=ratom.index, b_stereo=rstereo,", "        a=latom.index, a_stereo=lstereo, a_pos=lpos,\n        b=ratom.index, b_stereo=lstereo,")], ["S6"]),
     ],
     "C05": [
+        op("aromatic-p-restricted-to-valence-3", "fire", [(K, "\"N\": (3, 5), \"P\": (3, 5), \"As\": (3, 5),", "\"N\": (3, 5), \"P\": (3,), \"As\": (3,),")], ["K6"]),
+        op("is-kekulized-reads-atom-flags", "fire", [(M, "        return not self._delocal_subgraph", "        return not any(atom.is_aromatic for atom in self._atoms)")], ["K4"]),
         op("only-lowest-valence-satisfies", "fire", [(M, "            if any(used_electrons == v - atom.charge for v in valences):", "            if used_electrons == valences[0] - atom.charge:"),
                                                         (M, "                return not ((free_electrons >= 0) and (free_electrons % 2 != 0))", "                return free_electrons % 2 == 0")], ["K6"]),
         op("double-bonds-written-inside-the-reset-loop", "fire", [(M, "            self._bond_counts[node] = int(self._bond_counts[node])\n\n        for matched_labels in enumerate(matching):\n            matched_nodes = tuple(label_to_node[i] for i in matched_labels)\n            self.update_bond_order(*matched_nodes, new_order=2)\n",
@@ -202,6 +204,8 @@ OPS = {
                                          "    return _current_constraints.setdefault(key, _current_constraints[\"?\"])")], ["NW"]),
     ],
     "C09": [
+        op("unmatched-root-falls-into-the-matched-arm", "fire", [(K_MATCH, "            if matching[adj] is None:  # unmatched node\n                if adj != root:  # augmenting path found!\n                    parents[adj] = [node, adj]\n                    other_end = adj\n                    break\n",
+                                                                       "            if (matching[adj] is None) and (adj != root):\n                parents[adj] = [node, adj]\n                other_end = adj\n                break\n")], ["X-none-index"]),
         op("sorted-attribution-maps", "fire", [(E, "    attribution_maps = [a for a in attribution_maps if a.token]", "    attribution_maps = sorted(a for a in attribution_maps if a.token)"),
                                                 (M, "@dataclass\nclass AttributionMap:", "@dataclass(order=True)\nclass AttributionMap:")], ["X-sort"]),
         op("index-encoder-rejects-large", "fire", [(G, "    if index < 0:\n        raise IndexError()", "    if not (0 <= index < len(INDEX_ALPHABET) ** 3):\n        raise IndexError()")], ["EST"]),
@@ -274,6 +278,7 @@ OPS = {
         op("fragments-joined-with-space", "fire", [(E, '    result = ".".join(fragments), attribution_maps', '    result = " ".join(fragments), attribution_maps')], ["K1"]),
     ],
     "C15": [
+        op("missing-symbol-swallowed", "fire", [(U, "        integer_encoded.append(vocab_stoi[char])\n", "        try:\n            integer_encoded.append(vocab_stoi[char])\n        except KeyError:\n            if char == \".\":\n                raise\n")], ["U2"]),
         op("row-count-from-first-vector", "fire", [(U, "    selfies_list = []\n\n    for flat_one_hot in one_hot_batch:", "    selfies_list = []\n    L = len(one_hot_batch[0]) // len(vocab_itos) if one_hot_batch else 0\n\n    for flat_one_hot in one_hot_batch:"),
                                                       (U, "        L = len(flat_one_hot) // M\n", "")], ["U3"]),
         op("empty-vectors-skipped", "fire", [(U, "    for flat_one_hot in one_hot_batch:\n", "    for flat_one_hot in one_hot_batch:\n        if not flat_one_hot:\n            continue\n")], ["U4"]),
